@@ -656,9 +656,21 @@ def matrix(ctx, jinja2):
         for v in (0, 1, 999, 1000, 1024, 10 ** 6, 5 * 1024 ** 3, 10 ** 24, 2.5e6, "2048", True, 1023.9):
             for a in ((), (False,), (True,)):
                 mx.apply("C23", "filesizeformat", v, a, ("binary",))
-        for v in (42.55, 2.5, -0.5, 7, 1234.5678, True, "3.7"):
-            for a in ((), (0, "common"), (1, "floor"), (2, "ceil"), (-1, "common"), (1,), (0, "bogus")):
-                mx.apply("C23", "round", v, a, ("precision", "method"))
+        import math
+        import decimal
+        import fractions
+
+        def ref_round(v, precision=0, method="common"):
+            # the documented contract: rounds to the precision with the method, and "even if rounded to 0
+            # precision, a float is returned"
+            if method not in ("common", "ceil", "floor"):
+                raise jinja2.exceptions.FilterArgumentError("method")
+            if method == "common":
+                return float(round(v, precision))
+            return float(getattr(math, method)(v * (10 ** precision)) / (10 ** precision))
+        for v in (42.55, 2.5, -0.5, 7, 42, -3, 0, 1234.5678, True, "3.7", decimal.Decimal("2.675"), fractions.Fraction(7, 2)):
+            for a in ((), (0, "common"), (1, "floor"), (2, "ceil"), (-1, "common"), (1,), (0, "bogus"), (0, "ceil"), (0, "floor")):
+                mx.apply("C23", "round", v, a, ("precision", "method"), expect=lambda v=v, a=a: ref_round(v, *a))
         for v in ("42", "0x1A", "abc", 3.9, None, True, "1e3", " 7 ", float("inf"), 10 ** 400, [1], Markup("12"), StrSub("13")):
             # the default comes back exactly as given, whatever its type
             def ref_int(v=v, default=0, base=10):
@@ -789,14 +801,15 @@ def run(ctx):
     env = jinja2.Environment()
     env2 = jinja2.Environment()
     env2.policies["truncate.leeway"] = 0
-    tie_numbers(ctx, env, letters)
-    tie_truncate(ctx, env, env2)
-    tie_truncate_markup(ctx, jinja2.Environment(autoescape=True))
-    observe_filesize_nonfinite(ctx, env)
-    tie_lines(ctx, env)
-    tie_filesize(ctx, env)
-    wrappers(ctx, env, jinja2)
-    matrix(ctx, jinja2)
+    g = fc.guarded
+    g(ctx, "int/float kinds", tie_numbers, ctx, env, letters)
+    g(ctx, "truncate", tie_truncate, ctx, env, env2)
+    g(ctx, "truncate (Markup)", tie_truncate_markup, ctx, jinja2.Environment(autoescape=True))
+    g(ctx, "filesizeformat outside domain", observe_filesize_nonfinite, ctx, env)
+    g(ctx, "indent/center/wordcount/wordwrap", tie_lines, ctx, env)
+    g(ctx, "filesizeformat", tie_filesize, ctx, env)
+    g(ctx, "wrappers", wrappers, ctx, env, jinja2)
+    g(ctx, "matrix", matrix, ctx, jinja2)
     bg.join()
 
 
